@@ -118,3 +118,48 @@ Section Gate.
         let '(s'', rs) := run f s' rest in (s'', r :: rs)
     end.
 End Gate.
+
+(* ------------------------------------------------------------------------------------------------
+   The guard prefix of fit() / predict() as a LIST in source order.  coq/Generated/GateGen.v holds the
+   lists read from /repo's source on every run (harness/translate_gate.py); Properties/C04.v proves that
+   [fit] and [predict] above are their interpretation.  A guard that reads an attribute of the data object
+   (.tz, .df) raises AttributeError on an object without these attributes. *)
+Inductive pguard :=
+| PUnfitted      (* if not self.is_fitted: raise RuntimeError *)
+| PDisq          (* if self.disqualification and not ignore_disqualification: raise DisqualifiedModelError *)
+| PTz            (* if str(self.baseline_timezone) != str(reporting_data.tz): raise ValueError *)
+| PType          (* if not isinstance(reporting_data, (<family baseline>, <family reporting>)): raise TypeError *)
+| PFeature       (* if set(self._ts_features) - set(reporting_data.df.columns): raise ValueError *)
+| PTouch.        (* a block that reads reporting_data.<attr> and raises nothing itself *)
+
+Inductive fguard :=
+| FType          (* if not isinstance(baseline_data, <family baseline>): raise TypeError *)
+| FDisq          (* if baseline_data.disqualification and not ignore_disqualification: raise DataSufficiencyError *)
+| FFeature.      (* if "ghi" in self._ts_features and "ghi" not in baseline_data.df.columns: raise ValueError *)
+
+Fixpoint interp_predict (f : family) (gs : list pguard) (s : mstate) (d : dobj) (ignore : bool) : outcome :=
+  match gs with
+  | [] => Frame
+  | g :: r =>
+      match g with
+      | PUnfitted => if negb (fitted s) then Err RuntimeErr else interp_predict f r s d ignore
+      | PDisq => if nonempty (m_dq s) && negb ignore then Err Disqualified else interp_predict f r s d ignore
+      | PTz => if negb (has_attrs (d_kind d)) then Err AttrErr
+               else if negb (m_tz s =? d_tz d) then Err ValueTz else interp_predict f r s d ignore
+      | PType => if negb (is_data_of f (d_kind d)) then Err TypeErr else interp_predict f r s d ignore
+      | PFeature => if negb (has_attrs (d_kind d)) then Err AttrErr
+                    else if m_ghi s && negb (d_ghi d) then Err ValueMissingFeature else interp_predict f r s d ignore
+      | PTouch => if negb (has_attrs (d_kind d)) then Err AttrErr else interp_predict f r s d ignore
+      end
+  end.
+
+Fixpoint interp_fit (f : family) (gs : list fguard) (s : mstate) (d : dobj) (ignore : bool) : option exn :=
+  match gs with
+  | [] => None
+  | g :: r =>
+      match g with
+      | FType => if negb (is_baseline_of f (d_kind d)) then Some TypeErr else interp_fit f r s d ignore
+      | FDisq => if nonempty (d_dq d) && negb ignore then Some DataSufficiency else interp_fit f r s d ignore
+      | FFeature => if m_ghi s && negb (d_ghi d) then Some ValueMissingFeature else interp_fit f r s d ignore
+      end
+  end.
